@@ -135,6 +135,9 @@ func genGraph(t *rapid.T) GraphCase {
 	}
 	m := mgen.Gen(t, opts)
 	collide(t, &m)
+	if opts.MaxClasses > 4 {
+		pad(t, &m)
+	}
 	// extends / implements / field references for the architecture graph, over package
 	// names whose concatenations coincide (a+bc = ab+c)
 	for i := range m.Classes {
@@ -173,6 +176,46 @@ func genGraph(t *rapid.T) GraphCase {
 	}
 	c.Roots = dedupe(c.Roots)
 	return c
+}
+
+var deepPkgs = []string{"o.p.q.r.s.t", "o.p.q.r.s.t.u", "o.p.q.r.s.t.u.v", "o.p.q.r.s.t.w"}
+
+// pad adds 0-16 further types to a big model, each with one or two methods that call declared
+// methods of the model (one callee gets many callers; every name-keyed table of the reports gets
+// more than 8, in part more than 16 entries). In half of the cases their packages are six to eight
+// segments deep: the package merge of the architecture graph keeps the first seven segments of a
+// longer name and the first segment of any other.
+func pad(t *rapid.T, m *mgen.Model) {
+	n := rapid.IntRange(0, 16).Draw(t, "nPaddingTypes")
+	if n == 0 {
+		return
+	}
+	pool := archPkgs
+	if rapid.Bool().Draw(t, "deepPackages") {
+		pool = deepPkgs
+	}
+	type ref struct{ pkg, node, fn string }
+	var targets []ref
+	for _, c := range m.Classes {
+		for _, mm := range c.Methods {
+			targets = append(targets, ref{c.Pkg, c.Name, mm.Name})
+		}
+	}
+	for i := 0; i < n; i++ {
+		c := mgen.Class{Pkg: rapid.SampledFrom(pool).Draw(t, "padPkg"), Name: fmt.Sprintf("P%d", i)}
+		nm := rapid.IntRange(1, 2).Draw(t, "nPadMethods")
+		for j := 0; j < nm; j++ {
+			mm := mgen.Method{Name: fmt.Sprintf("p%d", j)}
+			nc := rapid.IntRange(1, 2).Draw(t, "nPadCalls")
+			for k := 0; k < nc && len(targets) > 0; k++ {
+				r := targets[rapid.IntRange(0, len(targets)-1).Draw(t, "padTarget")]
+				mm.Calls = append(mm.Calls, mgen.Call{Pkg: r.pkg, Node: r.node, Func: r.fn})
+			}
+			c.Methods = append(c.Methods, mm)
+			targets = append(targets, ref{c.Pkg, c.Name, mm.Name}) // later padding types may call this one
+		}
+		m.Classes = append(m.Classes, c)
+	}
 }
 
 // collide makes names compete: a type takes the simple name of a type of another package (every
@@ -284,6 +327,15 @@ func checkGraph(c GraphCase) pbt.Verdict {
 	}
 	if len(c.Model.Classes) > 8 {
 		v.Classes = append(v.Classes, "graphs/more_than_eight_types")
+	}
+	if len(c.Model.Classes) > 16 {
+		v.Classes = append(v.Classes, "graphs/more_than_sixteen_types")
+	}
+	for _, cl := range c.Model.Classes {
+		if strings.Count(cl.Pkg, ".") >= 6 {
+			v.Classes = append(v.Classes, "graphs/package_of_seven_or_more_segments")
+			break
+		}
 	}
 	simple, overload := map[string]bool{}, false
 	for _, cl := range c.Model.Classes {
